@@ -478,6 +478,9 @@ func (r *runner) exec(op OpSpec) {
 			xs[i] = fmt.Sprintf("(%d, %s)", r.hid(x.Header.Hash()), idsCoq(r.txIDs(x.Transactions)))
 		}
 		r.released = append(r.released, res...)
+		if len(res) == dl.VerifC18MaxResultsProcess {
+			r.classes["results_capped_at_max_results_process"]++
+		}
 		if len(res) > 0 {
 			r.classes["results_some"]++
 		} else {
@@ -1040,6 +1043,45 @@ func sortedKeys(m map[int]*request) []int {
 	return ks
 }
 
+// genCapScenario: a cache of 4096 slots and 2200..2700 mostly empty blocks, so
+// that more than maxResultsProcess (2048) results are processable at once and
+// Results has to cut its batch.
+func genCapScenario(rng *vf.Rng) *runner {
+	sc := &Scenario{CacheLen: 4096, CacheMem: 64 * 1024 * 1024, Start: 1 + uint64(rng.Intn(50))}
+	n := 2200 + rng.Intn(500)
+	for i := 0; i < n; i++ {
+		h := HdrSpec{Num: sc.Start + uint64(i), Parent: i - 1}
+		if i%400 == 399 {
+			h.Body = []int{i % 12}
+		}
+		sc.Headers = append(sc.Headers, h)
+	}
+	r := newRunner(sc)
+	run := func(op OpSpec) { sc.Ops = append(sc.Ops, op); r.exec(op) }
+	for i := 0; i < n; i += 700 {
+		var hs []int
+		for j := i; j < i+700 && j < n; j++ {
+			hs = append(hs, j)
+		}
+		run(OpSpec{K: "sched", Hs: hs, From: sc.Start + uint64(i)})
+	}
+	run(OpSpec{K: "reserve", Peer: 0, Count: 128})
+	if rq := r.cur[0]; rq != nil {
+		var bodies [][]int
+		for _, h := range rq.hs {
+			bodies = append(bodies, sc.Headers[r.hdrIdx[h.Hash()]].Body)
+		}
+		run(OpSpec{K: "deliver", Peer: 0, Bodies: bodies})
+	}
+	run(OpSpec{K: "results"})
+	r.checkNothingLost()
+	r.classes["legal_history"]++
+	sc.FinishAt = len(sc.Ops)
+	sc.FinishPeer, sc.FinishPartial, sc.FinishSeed = 0, false, rng.U64()
+	r.finish(vf.NewRng(sc.FinishSeed), func(op OpSpec) { sc.Ops = append(sc.Ops, op) }, -1, false)
+	return r
+}
+
 // ---- exhaustive small scope ------------------------------------------------------
 
 // exhaustive runs EVERY sequence of up to depth letters of a 13-letter
@@ -1164,10 +1206,13 @@ func loadCorpus(dir string) []*Scenario {
 	return out
 }
 
-func gen(seed uint64, n int, outDir, corpusDir string, exhaustiveDepth int) {
+func gen(seed uint64, n int, outDir, corpusDir string, exhaustiveDepth, e2eRuns int, bigCache bool) {
 	rng := vf.NewRng(seed)
 	res := vf.NewResult("C18", seed)
 	var runs []*runner
+	if e2eRuns > 0 {
+		e2eCampaign(seed, e2eRuns, 4, res)
+	}
 	if exhaustiveDepth > 0 {
 		cnt, hs := exhaustive(exhaustiveDepth)
 		res.Extra["exhaustive_sequences"] = cnt
@@ -1180,6 +1225,9 @@ func gen(seed uint64, n int, outDir, corpusDir string, exhaustiveDepth int) {
 	for _, sc := range loadCorpus(corpusDir) {
 		runs = append(runs, replayScenario(sc))
 		res.Count("corpus")
+	}
+	if bigCache {
+		runs = append(runs, genCapScenario(rng))
 	}
 	for len(runs) < n {
 		kind := 0
@@ -1225,7 +1273,7 @@ func gen(seed uint64, n int, outDir, corpusDir string, exhaustiveDepth int) {
 	res.Cases = len(runs)
 	res.Distinct = len(distinct)
 	res.Extra["operations"] = ops
-	res.Rule = "a case is one scripted history on a fresh queue (cache 1..128 slots, start number, chain of 1..300 headers with empty and non-empty blocks, 1..8 peers that are honest / stall / lie / answer empty / answer partially) ending with 'all requests expire, then one peer answers every request truthfully' where that peer is a fresh one or (whenever one exists, 60%) an existing peer that so far only gave truthful non-empty answers, possibly truncating its responses; 18% of the histories have only truthful-but-partial answerers and stallers and are finished by one of those answerers; every operation's return value and a state digest, and the full final state, are compared with the Coq model; 30% of the histories may leave the downloader's discipline (stale CancelBodies, Schedule from a wrong number); non-trivial = at least one request handed out or one block released; distinct by full text. In addition (first shard, oracle only): every sequence of up to 3 (quick) / 4 (thorough) letters of a 13-letter alphabet on 2 peers x 4 blocks x 2 cache slots, each followed by the finishing phase"
+	res.Rule = "a case is one scripted history on a fresh queue (cache 1..128 slots, start number, chain of 1..300 headers with empty and non-empty blocks, 1..8 peers that are honest / stall / lie / answer empty / answer partially) ending with 'all requests expire, then one peer answers every request truthfully' where that peer is a fresh one or (whenever one exists, 60%) an existing peer that so far only gave truthful non-empty answers, possibly truncating its responses; 18% of the histories have only truthful-but-partial answerers and stallers and are finished by one of those answerers; every operation's return value and a state digest, and the full final state, are compared with the Coq model; 30% of the histories may leave the downloader's discipline (stale CancelBodies, Schedule from a wrong number); non-trivial = at least one request handed out or one block released; distinct by full text. In addition (first shard, oracle only): every sequence of up to 3 (quick) / 4 (thorough) letters of a 13-letter alphabet on 2 peers x 4 blocks x 2 cache slots, each followed by the finishing phase; and a separate end-to-end class (40 quick / 600 thorough runs): the real Downloader.fetchBodies/fetchParts + processFullSyncContent around the real queue with 1..6 scripted peers (honest, truncating, stalling, lying, disconnecting mid-request, answering empty), oracle on the blocks reaching InsertChain (ascending gap-free from the origin, each once, matching body, completion whenever the master is an honest or truncating peer that stayed connected); thorough adds one 4096-slot-cache history that makes Results cut its batch at 2048"
 	res.Write(filepath.Join(outDir, "result.json"))
 }
 
@@ -1250,6 +1298,22 @@ func replay(file string) {
 	if err != nil {
 		fmt.Println(err)
 		os.Exit(2)
+	}
+	var e2e struct {
+		E2E *E2EScenario `json:"e2e"`
+	}
+	if json.Unmarshal(b, &e2e) == nil && e2e.E2E != nil && len(e2e.E2E.Peers) > 0 {
+		dl.VerifC18SetTiming(10*time.Millisecond, 10*time.Millisecond, 150*time.Millisecond)
+		dl.VerifC18NewQueue(64, 64*1024*1024)
+		r := runE2E(e2e.E2E)
+		fmt.Printf("e2e: class=%s imported=%d of %d\n", r.class, r.inserted, len(e2e.E2E.Bodies))
+		if len(r.hits) > 0 {
+			for _, h := range r.hits {
+				fmt.Println("ORACLE VIOLATION:", h)
+			}
+			os.Exit(1)
+		}
+		return
 	}
 	sc := parseScenario(b)
 	if sc == nil {
@@ -1288,18 +1352,20 @@ func main() {
 	}
 	switch mode {
 	case "gen":
-		depth := 0
+		depth, e2e := 0, 0
 		if _, err := os.Stat(*corpus); err == nil { // first shard only (later shards get a non-existing corpus dir)
-			depth = 3
+			depth, e2e = 3, 40
 			if *tier == "thorough" {
-				depth = 4
+				depth, e2e = 4, 600
 			}
 		}
-		gen(*seed, *n, *out, *corpus, depth)
+		gen(*seed, *n, *out, *corpus, depth, e2e, depth > 0 && *tier == "thorough")
 	case "replay":
 		replay(*file)
+	case "locks":
+		locksCmd(*out)
 	default:
-		fmt.Println("usage: c18 gen|replay")
+		fmt.Println("usage: c18 gen|replay|locks")
 		os.Exit(2)
 	}
 }
